@@ -190,6 +190,19 @@ int main(int argc, char **argv)
             put_ordered(f, a_lpf_gen(fc, ts));
             fputs(",\"hpf\":", f);
             put_ordered(f, a_hpf_gen(fc, ts));
+            {
+                /* the macro spellings (constant initialisers) with compound expressions as arguments: same coefficient */
+                double const f_hi = 1.5 * fc, f_lo = 0.5 * fc, t_a = 0.25 * ts, t_b = 0.75 * ts;
+                a_lpf const l2 = A_LPF_2(f_hi - f_lo, t_a + t_b), l1 = A_LPF_1(a_lpf_gen(fc, ts));
+                a_hpf const h2 = A_HPF_2(f_hi - f_lo, t_a + t_b), h1 = A_HPF_1(a_hpf_gen(fc, ts));
+                fputs(",\"lpf_macro\":[", f);
+                put_ordered(f, A_LPF_GEN(f_hi - f_lo, t_a + t_b)); fputc(',', f); put_ordered(f, l2.alpha); fputc(',', f); put_ordered(f, l1.alpha);
+                fputs("],\"hpf_macro\":[", f);
+                put_ordered(f, A_HPF_GEN(f_hi - f_lo, t_a + t_b)); fputc(',', f); put_ordered(f, h2.alpha); fputc(',', f); put_ordered(f, h1.alpha);
+                fputs("],\"lpf_ref\":", f); put_ordered(f, a_lpf_gen((a_real)(f_hi - f_lo), (a_real)(t_a + t_b)));
+                fputs(",\"hpf_ref\":", f); put_ordered(f, a_hpf_gen((a_real)(f_hi - f_lo), (a_real)(t_a + t_b)));
+                fprintf(f, ",\"zeroed\":%d", l2.output == 0 && l1.output == 0 && h2.output == 0 && h2.input == 0 && h1.output == 0 && h1.input == 0);
+            }
             fputs("}\n", f);
         }
     }
